@@ -169,7 +169,7 @@ func spec_sent(i int) Token { panic("spec") }
 //@     (forall k1, k2 string :: has(v.idsymtabl, k1) && has(v.idsymtabl, k2) && k1 != k2 ==> v.idsymtabl[k1] != v.idsymtabl[k2])
 
 //@ func (*astDeclareVistor).Process
-//@ props C11 C04 C12 C07
+//@ props C11 C04 C12 C07 C01 C02
 //@ requires v != nil && node != nil && tableOK(v) && iface_val(*node) != 0
 //@ may_panic ""
 //@ ensures [C11] tableOK(v)
@@ -190,6 +190,8 @@ func spec_sent(i int) Token { panic("spec") }
 //@ loop 4: invariant [C04] len(v.preIdList) == before(len(v.preIdList)) + idx4 && v.precIndex == before(v.precIndex)
 //@ loop 4: invariant [C04] forall i int :: 0 <= i && i < before(len(v.preIdList)) ==> v.preIdList[i] == before(v.preIdList[i])
 //@ loop 4: invariant tableOK(v)
+//@ before_stmt [C12,C01,C02] "v.startSym = v.idsymtabl[n.StartSym]" len(n.StartSym) != 0 ==> v.idsymtabl[n.StartSym] != nil
+//@ after_stmt [C12,C01,C02] "v.startSym = v.idsymtabl[n.StartSym]" v.startSym == v.idsymtabl[n.StartSym]
 //@ loop 5: invariant tableOK(v) && before(v.idMaxValue) <= v.idMaxValue
 //@ loop 5: invariant forall k string :: (has(v.idsymtabl, k) <==> has(before(v.idsymtabl), k)) && v.idsymtabl[k] == before(v.idsymtabl[k])
 // values that were set by the declarations are kept; values handed out here are new, above the old maximum
@@ -224,7 +226,7 @@ func spec_sent(i int) Token { panic("spec") }
 //@         (forall k2 int :: k < k2 && k2 < n && isSy(rp[k2]) ==> precOf(v, rp[k2]) == nil)))
 
 //@ func (*RuleVistor).Process
-//@ props C04 C12
+//@ props C04 C12 C11
 //@ requires v != nil && v.astDeclareVistor != nil && node != nil && iface_val(*node) != 0
 //@ requires forall k string :: has(v.idsymtabl, k) ==> v.idsymtabl[k] != nil
 //@ requires forall i int :: 0 <= i && i < len(v.preIdList) ==> v.preIdList[i].Id != nil
@@ -236,6 +238,11 @@ func spec_sent(i int) Token { panic("spec") }
 // a symbol reaches a rule only if it is in the identifier table (declared, or the left-hand side of a rule)
 //@ before_stmt [C12] "r.RighPart = append(r.RighPart, id)" id != nil && has(v.idsymtabl, right.Element) && id == v.idsymtabl[right.Element]
 //@ loop 0: invariant forall i int :: 0 <= i && i < len(v.preIdList) ==> v.preIdList[i].Id != nil
+// a left-hand side that is not yet known becomes a NEW nonterminal whose internal number is above every number handed out so far
+// (so it never equals a token code); known identifiers are left as they are
+//@ loop 1: end_of_body [C12,C11] v.idsymtabl[rng1[idx1].LeftPart] != nil && (at_head(v.idsymtabl[rng1[idx1].LeftPart]) == nil ==>
+//@     v.idsymtabl[rng1[idx1].LeftPart].IDTyp == NONTERMID && v.idsymtabl[rng1[idx1].LeftPart].Name == rng1[idx1].LeftPart && v.idMaxValue == at_head(v.idMaxValue) + 1 && v.idsymtabl[rng1[idx1].LeftPart].Value == v.idMaxValue)
+//@ loop 1: end_of_body [C12,C11] forall k string :: at_head(v.idsymtabl[k]) != nil && at_head(allocated(v.idsymtabl[k])) ==> v.idsymtabl[k] == at_head(v.idsymtabl[k]) && v.idsymtabl[k].IDTyp == at_head(v.idsymtabl[k].IDTyp) && v.idsymtabl[k].Value == at_head(v.idsymtabl[k].Value)
 //@ loop 1: invariant forall k string :: has(v.idsymtabl, k) ==> v.idsymtabl[k] != nil
 //@ loop 1: invariant v.preMap == before(v.preMap)
 //@ loop 2: invariant forall k string :: has(v.idsymtabl, k) ==> v.idsymtabl[k] != nil
@@ -494,7 +501,11 @@ func spec_sent(i int) Token { panic("spec") }
 //@ loop 0: decreases (len(l.input) - l.end, rank(state))
 
 //@ func (*parser).parseTypeList
-//@ props C13
+//@ props C13 C07 C12
+// every name of a %type line is recorded with the tag written between < and > on that line (C07: $n goes through that union field)
+//@ loop 0: end_of_body [C07,C12] len(TypedefList) == at_head(len(TypedefList)) + 1 && TypedefList[len(TypedefList)-1].Tag == Tag && TypedefList[len(TypedefList)-1].IdName == at_head(p.current.Value) && Tag == at_head(Tag)
+//@ loop 0: end_of_body [C07,C12] forall k int :: 0 <= k && k < at_head(len(TypedefList)) ==> TypedefList[k] == at_head(TypedefList)[k]
+//@ after_stmt [C07] "Tag = p.current.Value" Tag == p.current.Value
 //@ use STREAM
 //@ requires REP(p) && CUR(p) && p.peekCount == 0
 //@ modifies p.current, p.tokenArr, p.peekCount, p.err, fetched
@@ -504,7 +515,8 @@ func spec_sent(i int) Token { panic("spec") }
 //@ loop 0: decreases spec_E() + 1 - fetched
 
 //@ func (*parser).parseStartSymbol
-//@ props C13
+//@ props C13 C12 C01 C02
+//@ ensures [C12,C01,C02] p.current.Kind == Identifier ==> result == p.current.Value
 //@ requires REP(p) && CUR(p) && p.peekCount == 0
 //@ modifies p.current, p.tokenArr, p.peekCount, p.err, fetched
 //@ ensures [C13] REP(p) && CUR(p) && p.peekCount == 0 && fetched > old(fetched)
@@ -512,7 +524,13 @@ func spec_sent(i int) Token { panic("spec") }
 // the declaration section: every iteration consumes at least one token, and the loop stops at the first EOF, Section or
 // Error token - which the stream is bound to deliver (STREAM)
 //@ func (*parser).parseDeclare
-//@ props C13
+//@ props C13 C04 C07 C11 C12
+// the declaration node is assembled from what the section parsers returned, each list in its own field, in file order
+//@ before_stmt [C04,C07,C11,C12] "node = &DeclareNode{CodeList: Codestr, Union: Unionstr, TokenDefList: TokDefList, TypeDefList: TypeDefList, PrecDefList: PreDefList, StartSym: StartSym}" true
+//@ before_stmt [C11] "TokDefList = append(TokDefList, *p.parseTokendef())" true
+//@ before_stmt [C04] "PreDefList = append(PreDefList, p.parsePrecList(&TokDefList))" true
+//@ before_stmt [C07,C12] "TypeDefList = append(TypeDefList, p.parseTypeList()...)" true
+//@ before_stmt [C12] "StartSym = p.parseStartSymbol()" true
 //@ use STREAM
 //@ results node
 //@ requires p != nil && p.lex != nil && p.peekCount == 0 && fetched >= 0
@@ -566,6 +584,9 @@ func spec_sent(i int) Token { panic("spec") }
 //@ loop 3: invariant [C04,C07,C01,C02,C17,C08,C06] len(rightsyms) == idx3 && (forall k int :: 0 <= k && k < idx3 ==> rightsyms[k] == g.SymbolsMap[onerule.RighPart[k].Name])
 // a nonterminal identifier (left-hand side of a rule, %type or %start name) becomes a nonterminal symbol, so the check below sees it
 //@ before_stmt [C12] "g.InsertNewSymbol(sy)" sy.IsNonTerminator == (id.IDTyp == NONTERMID) && sy.CanTerminate == (id.IDTyp != NONTERMID)
+// the augmented rule 0 is S' -> S where S is the symbol of the declared start identifier (%start, default "start")
+//@ loop 1: invariant [C01,C02,C12] SymbolFirst == nil || (v.startSym != nil && SymbolFirst.Name == v.startSym.Name && SymbolFirst.Value == v.startSym.Value)
+//@ before_stmt [C01,C02,C12] "g.InsertNewRules(rule.NewProductoinRule(g.StartSymbol, []*symbol.Symbol{SymbolFirst}))" SymbolFirst == nil || SymbolFirst.Name == v.startSym.Name
 //@ loop 4: invariant [C12] forall i int :: 0 <= i && i < idx4 && g.Symbols[i].IsNonTerminator ==> has(g.VnSet, g.Symbols[i])
 //@ before_stmt [C12] "g.ResolveSymbols()" forall i int :: 0 <= i && i < len(g.Symbols) && g.Symbols[i].IsNonTerminator ==> has(g.VnSet, g.Symbols[i])
 // C09: state 0 is the closure of the augmented start item (rule 0, dot 0), and it is the only state when the worklist starts
